@@ -7,8 +7,35 @@ TECH = "contract-based deductive verification: own VC generator over go/ssa, con
 
 # property -> (level text, level note, design ref)
 CLAIMED = {
+ "C03": ("Proof of the server half: for each request handler, call-site obligations that the backend File method is called on the File bound to the request's fid with exactly the message's fields as arguments, that the reply carries the backend's results, and that a backend error becomes Rlerror(errno(err)) through newErr; ExtractErrno is specified by the uninterpreted function errno.",
+         "Not yet under contract: the client half (one T-message per clientFile method, version gating) and ExtractErrno's body (its contract is assumed; listed as UNVERIFIED in the evidence). Backends are assumed to satisfy the File interface contracts. Trusted: front end, VC generator, solvers.",
+         "4-C03"),
+ "C04": ("Proof, inductive over histories: every handler is verified against transition rows read off the statement (unbound fid => EBADF, no backend call, table unchanged; clunk/remove always unbind; walk/attach/xattrwalk bind only on success; create rebinds to an open file; open/read/write/readdir/fsync mode checks; opened-directory refusals), with the fid-table invariant as pre- and postcondition of each handler and LookupFID/InsertFID/DeleteFID proved against their bodies.",
+         "DecRef, addChild, markChildDeleted, renameChildTo have assumed (UNVERIFIED) contracts; xattr read/write sub-protocol rows are partial. Trusted: front end, VC generator, solvers.",
+         "4-C04"),
+ "C05": ("Proof of per-function reference/ownership deltas with ghost state: owed(r) (references the invocation holds) and own(f) (File ownership): every DecRef drops a held reference, every handler returns with owed unchanged and no File left owned locally (error paths close what they obtained), a File is stored into a fidRef only when freshly obtained (no sharing), Close only on owned Files, no method on a closed File. Table functions proved against their bodies.",
+         "The global 'exactly once' follows from the deltas by a counting lemma that is argued on paper, not machine checked. DecRef's body (close at zero, parent release) and connState.stop are not yet verified (assumed contract). Schedules: atomics treated as sequential. Panic exits are not claimed for reference balance (the statement asks it for errors).",
+         "4-C05"),
+ "C07": ("Proof of the lock discipline: the lock class of every File method is a precondition on the interface method (read/write/global class over ghost hold counts of renameMu and the path node of the fidRef the receiver was loaded from), checked at every backend call site of every handler; safelyRead/Write/Global are proved against higher-order wrapper contracts; unlink's child-node lock; guarded-by obligations for fidRef.opened/openFlags.",
+         "Mutual exclusion of sync.RWMutex is trusted; exclusion is derived from lock sets, not explored over schedules. Files not yet stored in a fidRef are private to the invocation. Known findings F9, F10 (known_findings.txt).",
+         "4-C07"),
+ "C08": ("Proof of fencing as call-site preconditions (no path-dependent backend call through a fidRef whose path node is deleted; Link target and both rename directories included), refusal rows (ENOENT for walks, EINVAL otherwise, no backend call), rename/remove use the name registered for the reference, tree updates only after backend success, path-node invariants (no nil / self child; live path below live paths) preserved by every handler.",
+         "markChildDeleted / renameChildTo / removeWithName (recursion and loops over maps being mutated) have assumed (UNVERIFIED) contracts: what they do to the tree is not yet checked. Object-identity-through-rename is argued on paper.",
+         "4-C08"),
+ "C09": ("Proof, for all strings: checkSafeName <=> safe(name); safe(name) is a precondition of every name-bearing File method, discharged at every call site; walks advance one component at a time and only from references whose recorded mode is a directory (loop invariants of doWalk); every name registered in the path tree stays safe (invariant), so names returned by nameFor are safe.",
+         "strings.Contains is an uninterpreted atom shared by code and specification. addChild/renameChildTo contracts (which add names) are assumed.",
+         "4-C09"),
+ "C11": ("Proof, unbounded over len/offset/chunk size: chunk() against ghost-accumulated call log of its callback: chunks contiguous, in order, each within the limit, stop at first short or failed chunk, returned count is the sum and error the last one, len(p)==0 issues exactly one call, no panic, termination (decreases).",
+         "Callback assumed honest about counts (0 <= n <= len). readAt/writeAt (one Tread/Twrite, EOF translation) not yet under contract.",
+         "4-C11"),
+ "C15": ("Proof: every backend call site has an error outcome and a panic outcome; handlers' replies on backend error are Rlerror(errno(err)); lock balance on normal and panic exits of every handler and of the lock wrappers (deferred unlocks); fid table unchanged on error (clunk/remove still unbind); references balanced and obtained Files closed on error paths.",
+         "connState.handle's recover contract not yet under contract (EFAULT mapping). DecRef assumed. Go runtime panics raised asynchronously are out of scope.",
+         "4-C15"),
+ "C16": ("Partial: proof of two sufficient disciplines only - lock-state preconditions of every mutex operation (no recursive acquisition, unlock only what is held, child node after parent only) and guarded-by obligations for fidRef.opened/openFlags; tree acyclicity invariant used for child-after-parent.",
+         "NOT decided: progress (every request answered, lost wake-ups on channels/WaitGroup) and observational isolation are whole-system liveness / 2-safety properties outside per-function contracts. Full lock-level order and field classification for all shared fields not yet built.",
+         "4-C16"),
  "C20": ("Proof (unbounded, all 64-bit inputs): encodeLikely against an independent spec function of the dev_t layout, injectivity and bit-63 disjointness as lemmas over that contract, ModeFromOS/OSMode/QIDType round-trip lemmas over the real SSA of the functions for all 2^32 modes.",
-         "Trusted: go/ssa front end, own VC generator, solvers. Not yet under contract in this check: localToQid's fallback table and qids.Mapper (stability / concurrency halves of the statement); see DESIGN.md section 4-C20.",
+         "Not yet under contract: localToQid's fallback table and qids.Mapper (stability / concurrency halves of the statement).",
          "4-C20"),
 }
 
